@@ -40,6 +40,13 @@ def declaredRegistries : List (String × String × String × List String) :=
    ("procbuilder", "Allopcodes", "slice", ["EventuallyCreateInstruction", "init"]),
    ("procbuilder", "Allshared", "slice", ["init"])]
 
+/-- the only uses of the wall clock / timers in the simulator packages: the seeding of math/rand in
+    procbuilder's package initialiser.  No step of a simulation may consult the clock (the model's steps are
+    functions of the state alone): a `time.After` / `time.Now` / timer in `Simulate`, `Step`, the simbox or
+    the number library breaks `clock_sites_match`. -/
+def declaredClockSites : List (String × String × String) :=
+  [("pkg/procbuilder/machine.go", "init", "time.Now")]
+
 /-- where the ISA model keeps the phase of addp / multp in the current tree -/
 def genDom : Dom :=
   { addp := genGlobals.any (fun (t, _) => t == "Addp"),
